@@ -917,7 +917,7 @@ func (h *rzHarness) apply(toks []string) (obs string) {
 		h.serve(rzReq{method: "POST", sess: toks[1], version: rzVersion(kv["hv"]), body: `{"jsonrpc":"2.0","method":"notifications/initialized"}`, budget: -1})
 		synctest.Wait()
 		return h.observe(toks[1])
-	case "call": // call <sess> ids=3,4 hv=<ver> b=<budget>
+	case "call": // call <sess> ids=3,4 hv=<ver> nn=<notifications in the batch> b=<budget>
 		name := toks[1]
 		h.postCall(name, kv)
 		synctest.Wait()
@@ -1107,6 +1107,16 @@ func (h *rzHarness) postCall(name string, kv map[string]string) {
 		} else {
 			parts = append(parts, fmt.Sprintf(rzCallBody, idn, key))
 		}
+	}
+	// nn=<k>: k notifications grouped with the calls (after the first call, the rest at the end)
+	if nn, _ := strconv.Atoi(kv["nn"]); nn > 0 {
+		const note = `{"jsonrpc":"2.0","method":"notifications/roots/list_changed"}`
+		mixed := []string{parts[0], note}
+		mixed = append(mixed, parts[1:]...)
+		for i := 1; i < nn; i++ {
+			mixed = append(mixed, note)
+		}
+		parts = mixed
 	}
 	body := parts[0]
 	if len(parts) > 1 {
@@ -1446,6 +1456,16 @@ type rzGen struct {
 	cuts, resumes, races int
 	prng   *rand.Rand // decisions about store evictions (separate stream: the other choices stay what they were)
 	purges int
+	// a resume that was gone again at the end of its record (its connection broke during the replay, After failed, it was
+	// refused …): the client resumes again from the same id ("however often the client resumes")
+	again     *rzGAgain
+	broken    int // resumes that broke during their replay
+	reresumes int // resumes that follow one that was gone again
+}
+
+type rzGAgain struct {
+	sess, last string
+	left       int // further attempts
 }
 
 func (g *rzGen) find(name string) *rzGSess {
@@ -1546,6 +1566,9 @@ func (g *rzGen) do(op string, tags ...string) string {
 				}
 				g.hang[n] = sess
 			}
+			if n > before && toks[0] == "get" && strings.Contains(obs, fmt.Sprintf("x%d!", n)) && strings.Contains(" "+obs+" ", fmt.Sprintf(" x%d. ", n)) {
+				tags = append(tags, "get-broke-during-replay")
+			}
 		}
 	}
 	g.out.line(g.cs, op, obs, append([]string{toks[0]}, tags...)...)
@@ -1613,10 +1636,35 @@ func (g *rzGen) call(s *rzGSess) {
 		}
 	}
 	ids := []int{id}
-	if (hv == "-" || hv == "a") && g.chance(30) {
+	nn := 0
+	legacy := hv == "-" || hv == "a"
+	if legacy && g.chance(30) {
 		id2 := 1 + g.pick(6)
 		if id2 != id {
 			ids = append(ids, id2)
+		}
+	}
+	if legacy && g.prng != nil {
+		// pre-2025-06-18: one POST may carry a batch of several calls and notifications (one logical stream for all of
+		// them; it is done with the LAST response). C02 runs concentrate on them.
+		pct := 12
+		if g.prop == "C02" {
+			pct = 40
+		}
+		if g.prng.Intn(100) < pct {
+			for want := 2 + g.prng.Intn(2); len(ids) < want; {
+				k := 1 + g.prng.Intn(8)
+				fresh := true
+				for _, i := range ids {
+					fresh = fresh && i != k
+				}
+				if fresh {
+					ids = append(ids, k)
+				}
+			}
+			nn = g.prng.Intn(3)
+		} else if g.prng.Intn(100) < 10 {
+			nn = 1 + g.prng.Intn(2) // a batch of one call and notifications
 		}
 	}
 	dup := false
@@ -1632,7 +1680,16 @@ func (g *rzGen) call(s *rzGSess) {
 	} else if len(ids) > 1 {
 		tag = "call-batch"
 	}
-	g.do(fmt.Sprintf("call %s ids=%s hv=%s%s", s.name, strings.Join(idtxt, ","), hv, g.budget()), tag)
+	tags := []string{tag}
+	if len(ids) > 2 {
+		tags = append(tags, "call-batch-3")
+	}
+	nntxt := ""
+	if nn > 0 {
+		nntxt = fmt.Sprintf(" nn=%d", nn)
+		tags = append(tags, "call-batch-with-notifications")
+	}
+	g.do(fmt.Sprintf("call %s ids=%s hv=%s%s%s", s.name, strings.Join(idtxt, ","), hv, nntxt, g.budget()), tags...)
 	if !dup {
 		for _, i := range ids {
 			s.reqs = append(s.reqs, &rzGReq{id: i, x: x})
@@ -1735,7 +1792,62 @@ func (g *rzGen) get(s *rzGSess) string {
 	if tag == "get-resume" {
 		g.resumes++
 	}
-	return fmt.Sprintf("get %s hv=%s last=%s%s", s.name, hv, last, g.budget()) + "\x00" + tag
+	b := g.budget()
+	if tag == "get-resume" && b == "" && g.prng != nil && g.prng.Intn(100) < 30 {
+		// the resuming connection breaks at its k-th write: before the first replayed event, in the middle of the
+		// replay, at its last event, or at the first live event after it (k ranges over the events there are to replay)
+		b = fmt.Sprintf(" b=%d", g.prng.Intn(g.toReplay(s, last)+1))
+	}
+	return fmt.Sprintf("get %s hv=%s last=%s%s", s.name, hv, last, b) + "\x00" + tag
+}
+
+// toReplay is the number of stored entries after event id `last` (as far as the generator has seen appends).
+func (g *rzGen) toReplay(s *rzGSess, last string) int {
+	t, idx, ok := strings.Cut(last, "_")
+	if !ok {
+		return 0
+	}
+	i, _ := strconv.Atoi(idx)
+	st := s.streams[t]
+	if st == nil || st.napp-i-1 < 0 {
+		return 0
+	}
+	return st.napp - i - 1
+}
+
+// noteResume looks at what became of a resume: if its exchange is gone again by the end of the record and the stream
+// still has something to say (requests outstanding or entries to replay), the client will resume again from the same id.
+func (g *rzGen) noteResume(s *rzGSess, op, obs string) {
+	kv := rzKV(strings.Fields(op))
+	last := kv["last"]
+	if last == "" || last == "none" || last == "bad" || !g.store {
+		return
+	}
+	x := 0
+	for _, t := range strings.Fields(obs) {
+		if strings.HasPrefix(t, "x") && !strings.ContainsAny(t, "+!/.") && strings.Count(t, ":") == 1 {
+			x, _ = strconv.Atoi(strings.TrimPrefix(strings.Split(t, ":")[0], "x"))
+		}
+	}
+	if x == 0 || !strings.Contains(" "+obs+" ", fmt.Sprintf(" x%d. ", x)) {
+		return // still hanging
+	}
+	if strings.Contains(obs, fmt.Sprintf("x%d!", x)) {
+		g.broken++
+	} else if strings.Contains(" "+obs+" ", fmt.Sprintf(" x%d:sse ", x)) && g.prng.Intn(100) >= 20 {
+		// served to the end (the stream is complete): resumed again only now and then
+		g.again = nil
+		return
+	}
+	left := 1 + g.prng.Intn(3)
+	if g.again != nil && g.again.sess == s.name && g.again.last == last {
+		left = g.again.left - 1
+	}
+	if left <= 0 {
+		g.again = nil
+		return
+	}
+	g.again = &rzGAgain{sess: s.name, last: last, left: left}
 }
 
 func (g *rzGen) hangingOf(s *rzGSess) []int {
@@ -1755,6 +1867,22 @@ func (g *rzGen) stepStateful() {
 		g.purges++
 		g.do(fmt.Sprintf("purge %d", 1+g.prng.Intn(700)), "purge")
 		return
+	}
+	if a := g.again; a != nil && g.prng != nil && g.prng.Intn(100) < 55 {
+		if s := g.find(a.sess); s != nil && !s.gone {
+			// the client resumes again from the id it has: mostly on a healthy connection, sometimes on one that breaks too
+			b := ""
+			if g.prng.Intn(100) < 30 {
+				b = fmt.Sprintf(" b=%d", g.prng.Intn(g.toReplay(s, a.last)+1))
+			}
+			g.resumes++
+			g.reresumes++
+			op := fmt.Sprintf("get %s hv=%s last=%s%s", s.name, []string{"-", "a", "b", "c", "c"}[g.prng.Intn(5)], a.last, b)
+			obs := g.do(op, "get-resume", "get-resume-again")
+			g.noteResume(s, op, obs)
+			return
+		}
+		g.again = nil
 	}
 	live := g.liveSess()
 	if len(live) == 0 || (len(g.sess) < g.maxSess && g.chance(12)) {
@@ -1866,7 +1994,10 @@ func (g *rzGen) stepStateful() {
 			}
 		}
 		optag := strings.SplitN(g.get(s), "\x00", 2)
-		g.do(optag[0], optag[1])
+		obs := g.do(optag[0], optag[1])
+		if optag[1] == "get-resume" && g.prng != nil {
+			g.noteResume(s, optag[0], obs)
+		}
 	case r < 88:
 		if len(parked) > 0 {
 			q := parked[g.pick(len(parked))]
@@ -2048,6 +2179,12 @@ func rzGenCase(t *testing.T, out *verifOut, c int, prop string) (cuts, resumes, 
 		}
 		if g.purges > 0 {
 			tags = append(tags, "case-with-purge")
+		}
+		if g.broken > 0 {
+			tags = append(tags, "case-with-broken-replay")
+		}
+		if g.reresumes > 0 {
+			tags = append(tags, "case-with-resume-after-gone-resume")
 		}
 		out.line(cs, "endcase", "ok", append([]string{"endcase"}, tags...)...)
 		cuts, resumes, races = g.cuts, g.resumes, g.races
